@@ -6,7 +6,8 @@ Configuration product (K4): programs x -w x -v x -o x -d x --werror x --lzma_pre
  (3) the Python API     flipjump.assemble / Writer + assembler.assemble with the same explicit options,
                         flipjump.run with a FixedIO
 Checked: byte-identical .fjm (and .fjd) files across routes, identical program output and
-termination cause, and the documented defaults (width 64; version 3 iff an output file is requested,
+termination cause (the API routes run in a process where a caller has already taken flipjump.get_stl_paths() and
+appended to / truncated / reversed the list it got), and the documented defaults (width 64; version 3 iff an output file is requested,
 else 1 - observed on the temporary file of the one-step flow; stl included unless --no_stl).
 """
 import itertools
@@ -283,6 +284,22 @@ def check_defaults(wd, sieve, stats):
                    'expected': 'fails (stl macros unknown)', 'observed': 'printed Hi', 'summary': '--no_stl had no effect'})
 
 
+def api_user_history(part, wd):
+    """what a library user may do before assembling in the same process: take the public list of stl paths and build an
+    own file list out of it (the in-process API routes run after this; the fj subprocess routes are the untouched reference)"""
+    import flipjump
+    paths = flipjump.get_stl_paths()
+    assert len(paths) > 5
+    if part % 3 == 0:
+        extra = wd / 'my_lib.fj'
+        extra.write_text('ns stl {\n  def startup {\n    ;\n  }\n}\n')
+        paths.append(extra)
+    elif part % 3 == 1:
+        del paths[3:]
+    else:
+        paths.reverse()
+
+
 def work(task):
     from fjv.enginecheck import scratch
     kind, tier, part, nparts = task
@@ -293,6 +310,7 @@ def work(task):
         check_defaults(wd, sieve, stats)
         return stats, sieve.result(), None
     sample = None
+    api_user_history(part, wd)
     for i, cfg in enumerate(configs(tier)):
         if i % nparts != part:
             continue
